@@ -123,13 +123,15 @@ func (c *Int) Ident() string {
 	if c.Typ.BitSize == 1 {
 		// "true"
 		// "false"
+		// Note, the only non-zero value of i1 is denoted by both 1 and -1 (two's
+		// complement); e.g. the parser produces X=-1 for `i1 -1` and `i1 s0x1`.
 		switch x := c.X.Int64(); x {
 		case 0:
 			return "false"
-		case 1:
+		case 1, -1:
 			return "true"
 		default:
-			panic(fmt.Errorf("invalid integer value of boolean type; expected 0 or 1, got %d", x))
+			panic(fmt.Errorf("invalid integer value of boolean type; expected 0, 1 or -1, got %d", x))
 		}
 	}
 	// Output x in hexadecimal notation if x is positive, greater than or equal
